@@ -283,8 +283,13 @@ func checkC03(c *Ctx) {
 		for _, lc := range batch {
 			c.Res.Evaluations++
 			l := lc.leaf.Lit
-			if lc.goObs.E == "badlit" || modelField(lc.model, "e") == "badlit" {
+			if modelField(lc.model, "e") == "badlit" {
 				c.count("skipped_unrepresentable_literal")
+				continue
+			}
+			if lc.goObs.E == "badlit" {
+				// the literal IS representable (strconv on its text succeeds in the model and in the oracle below)
+				c.violate(lc.viol("a numeric literal inside the representable range is rejected", "the literal "+l.Text+" is representable: the comparison is decided by the mathematical order, no error"))
 				continue
 			}
 			var litRat *big.Rat
@@ -693,7 +698,7 @@ func checkC08(c *Ctx) {
 		b := evalFresh(orText, m)
 		c.Res.Evaluations++
 		c.count("kind_" + kind)
-		if a.E == "badlit" || b.E == "badlit" {
+		if a.E == "badlit" && b.E == "badlit" {
 			c.count("skipped_unrepresentable_element")
 			continue
 		}
